@@ -57,6 +57,7 @@ class C06(Check):
     quick_examples = 3000
     thorough_examples = 40000
     rule = (
+        "[drawn in addition since rounds 13-15: valid messages whose payload is nested 100 / 400 / 900 levels] "
         "cases: (a) the complete product of the per-member alphabet {absent,null,true,false,0,1,-1,1.0,1.5,'','2.0','x',[],[1],{},"
         "{'a':1},2.0,2} over jsonrpc/id/method/params (requests: 104976), jsonrpc/id/result/error with error over the alphabet plus 12 "
         "error objects (responses: 174960), code/message/data (errors: 5832) and jsonrpc/id/result/error of an object handed to BatchResponse.from_json (batch-level errors: 17496), enumerated in both tiers, plus valid two-element batches with one alphabet element spliced in at every position; (b) Hypothesis-generated "
